@@ -23,6 +23,7 @@ type RunOutput struct {
 	Results   []*HarnessResult `json:"results"`
 	SrcFiles  []string         `json:"src_files"`
 	Solver    string           `json:"solver"`
+	DroppedFiles []string      `json:"dropped_files,omitempty"`
 }
 
 func main() {
@@ -99,6 +100,17 @@ func cmdRun(args []string) {
 		ro.SrcFiles = append(ro.SrcFiles, f)
 	}
 	sort.Strings(ro.SrcFiles)
+	for file, hs := range ld.dropped {
+		ro.DroppedFiles = append(ro.DroppedFiles, file)
+		for _, h := range hs {
+			if re.MatchString(h) {
+				msg := "harness file " + file + " no longer compiles against the edited tree"
+				ro.Results = append(ro.Results, &HarnessResult{Harness: h, Status: "inconclusive", Inconclusive: []string{msg}, PathsByEnd: map[string]int{}, Asserts: map[string]int{}, Reach: map[string]int{}, Bounds: map[string]string{}})
+				fmt.Fprintf(os.Stderr, "%-40s %-12s %s\n", h, "inconclusive", msg)
+			}
+		}
+	}
+	sort.Strings(ro.DroppedFiles)
 	for _, h := range ld.harnesses {
 		if !re.MatchString(h.Name) {
 			continue
@@ -189,7 +201,33 @@ func cmdReplay(args []string) {
 	}
 }
 
+// NativeReplay builds and runs the batch natively. Harness files that no longer compile against the current tree
+// (and the files depending on them) are left out and the build is repeated, as the engine's loader does.
 func NativeReplay(repo, hroot, relPkg, batchPath, scratch, knownPath string) ([]ReplayResult, string, error) {
+	skip := map[string]bool{}
+	errRe := regexp.MustCompile(`(?m)^(/\S+\.go):\d+:\d+: `)
+	hdirAbs, _ := filepath.Abs(filepath.Join(hroot, relPkg))
+	for attempt := 0; ; attempt++ {
+		res, raw, err := nativeReplayOnce(repo, hroot, relPkg, batchPath, scratch, knownPath, skip)
+		if err == nil || attempt >= 8 || !strings.Contains(raw, "[build failed]") {
+			return res, raw, err
+		}
+		progress := false
+		for _, m := range errRe.FindAllStringSubmatch(raw, -1) {
+			f, _ := filepath.Abs(m[1])
+			if filepath.Dir(f) == hdirAbs && !skip[filepath.Base(f)] {
+				skip[filepath.Base(f)] = true
+				progress = true
+				fmt.Fprintf(os.Stderr, "native replay: harness file %s no longer compiles against this tree: left out\n", filepath.Base(f))
+			}
+		}
+		if !progress {
+			return res, raw, err
+		}
+	}
+}
+
+func nativeReplayOnce(repo, hroot, relPkg, batchPath, scratch, knownPath string, skip map[string]bool) ([]ReplayResult, string, error) {
 	hdir := filepath.Join(hroot, relPkg)
 	ents, err := os.ReadDir(hdir)
 	if err != nil {
@@ -203,7 +241,7 @@ func NativeReplay(repo, hroot, relPkg, batchPath, scratch, knownPath string) ([]
 	hre := regexp.MustCompile(`(?m)^func (VH_\w+)\(\)`)
 	for _, e := range ents {
 		n := e.Name()
-		if !strings.HasSuffix(n, ".go") || strings.HasSuffix(n, "_engine.go") {
+		if !strings.HasSuffix(n, ".go") || strings.HasSuffix(n, "_engine.go") || skip[n] {
 			continue
 		}
 		src := filepath.Join(hdir, n)
